@@ -882,60 +882,8 @@ func hashKeysTakeTheValueAsItIs(c *core.Ctx) {
 // return an error object use their result.
 func errorObjectsAreNotDropped(c *core.Ctx) {
 	p := c.P
-	op := p.Pkg("object")
-	errT := core.MustType(op, "Error")
-	objT := core.MustType(op, "Object")
 	all := repoFns(p)
-	isErrPtr := func(t types.Type) bool {
-		pt, ok := t.(*types.Pointer)
-		return ok && core.NamedOf(pt.Elem()) == errT
-	}
-	carries := func(t types.Type) bool {
-		return isErrPtr(t) || core.NamedOf(t) == objT && !isErrPtr(t) && func() bool { _, isPtr := t.(*types.Pointer); return !isPtr }()
-	}
-	may := map[*ssa.Function]bool{}
-	for changed := true; changed; {
-		changed = false
-		for _, fn := range all {
-			if may[fn] || fn.Signature.Results().Len() == 0 {
-				continue
-			}
-			res := fn.Signature.Results()
-			for ri := 0; ri < res.Len() && !may[fn]; ri++ {
-				if !carries(res.At(ri).Type()) {
-					continue
-				}
-				for _, b := range fn.Blocks {
-					ret, ok := b.Instrs[len(b.Instrs)-1].(*ssa.Return)
-					if !ok || ri >= len(ret.Results) {
-						continue
-					}
-					for _, o := range originsThroughInterfaces(spilledResult(b, ret.Results[ri])) {
-						if cst, ok := o.(*ssa.Const); ok && cst.IsNil() {
-							continue
-						}
-						if isErrPtr(o.Type()) {
-							may[fn] = true
-						}
-						call, ok := o.(*ssa.Call)
-						if !ok {
-							if ex, isEx := o.(*ssa.Extract); isEx {
-								call, ok = ex.Tuple.(*ssa.Call)
-							}
-						}
-						if ok {
-							if cal := call.Call.StaticCallee(); cal != nil && may[cal] {
-								may[fn] = true
-							}
-						}
-					}
-				}
-			}
-			if may[fn] {
-				changed = true
-			}
-		}
-	}
+	may := mayReturnErrorObjects(p)
 	n := 0
 	for _, fn := range all {
 		k := map[string]int{}
@@ -2823,4 +2771,70 @@ func reachesReturn(v ssa.Value) bool {
 		return false
 	}
 	return walk(v)
+}
+
+// mayReturnErrorObjects: the repository functions one of whose results can be
+// an *object.Error that the function (or one it calls) has just built.
+var mayReturnErrorObjectsCache = map[*core.Program]map[*ssa.Function]bool{}
+
+func mayReturnErrorObjects(p *core.Program) map[*ssa.Function]bool {
+	if m, ok := mayReturnErrorObjectsCache[p]; ok {
+		return m
+	}
+	op := p.Pkg("object")
+	errT := core.MustType(op, "Error")
+	objT := core.MustType(op, "Object")
+	all := repoFns(p)
+	isErrPtr := func(t types.Type) bool {
+		pt, ok := t.(*types.Pointer)
+		return ok && core.NamedOf(pt.Elem()) == errT
+	}
+	carries := func(t types.Type) bool {
+		return isErrPtr(t) || core.NamedOf(t) == objT && !isErrPtr(t) && func() bool { _, isPtr := t.(*types.Pointer); return !isPtr }()
+	}
+	may := map[*ssa.Function]bool{}
+	for changed := true; changed; {
+		changed = false
+		for _, fn := range all {
+			if may[fn] || fn.Signature.Results().Len() == 0 {
+				continue
+			}
+			res := fn.Signature.Results()
+			for ri := 0; ri < res.Len() && !may[fn]; ri++ {
+				if !carries(res.At(ri).Type()) {
+					continue
+				}
+				for _, b := range fn.Blocks {
+					ret, ok := b.Instrs[len(b.Instrs)-1].(*ssa.Return)
+					if !ok || ri >= len(ret.Results) {
+						continue
+					}
+					for _, o := range originsThroughInterfaces(spilledResult(b, ret.Results[ri])) {
+						if cst, ok := o.(*ssa.Const); ok && cst.IsNil() {
+							continue
+						}
+						if isErrPtr(o.Type()) {
+							may[fn] = true
+						}
+						call, ok := o.(*ssa.Call)
+						if !ok {
+							if ex, isEx := o.(*ssa.Extract); isEx {
+								call, ok = ex.Tuple.(*ssa.Call)
+							}
+						}
+						if ok {
+							if cal := call.Call.StaticCallee(); cal != nil && may[cal] {
+								may[fn] = true
+							}
+						}
+					}
+				}
+			}
+			if may[fn] {
+				changed = true
+			}
+		}
+	}
+	mayReturnErrorObjectsCache[p] = may
+	return may
 }
